@@ -67,7 +67,11 @@ type Val struct {
 // how the signer answers the account listing (Signer, per wallet).
 type Refresh struct {
 	Kind string `json:"kind"` // full | subset | empty | error
-	Vals []Val  `json:"vals"`
+	// HeadEpoch: the epoch of the chain's head at the time of the refresh.  The
+	// node reports each validator's status as of this epoch; the managers' clock
+	// stands at it.
+	HeadEpoch uint64 `json:"head_epoch"`
+	Vals      []Val  `json:"vals"`
 	// Omit: account ids left out of a "subset" answer.
 	Omit []int `json:"omit,omitempty"`
 	// Signer (dirk only): wallet name -> full | subset | empty | error.  A wallet
@@ -91,11 +95,10 @@ type Step struct {
 
 // Case is one generated scenario.
 type Case struct {
-	Manager      string   `json:"manager"` // wallet | dirk
-	Specs        []string `json:"specs"`
-	Passphrases  []string `json:"passphrases,omitempty"`
-	CurrentEpoch uint64   `json:"current_epoch"`
-	Steps        []Step   `json:"steps"`
+	Manager     string   `json:"manager"` // wallet | dirk
+	Specs       []string `json:"specs"`
+	Passphrases []string `json:"passphrases,omitempty"`
+	Steps       []Step   `json:"steps"`
 }
 
 // ---------------------------------------------------------------------------
@@ -103,18 +106,45 @@ type Case struct {
 
 type valProvider struct {
 	mu       sync.Mutex
+	mgr      string
 	script   *Refresh
 	calls    int
 	lastKeys []phase0.BLSPubKey
 }
 
-func toAPI(v *Val) *apiv1.Validator {
+// statusAt is the status a beacon node reports for the validator when its head
+// is in the given epoch.
+func statusAt(v *Val, head uint64) apiv1.ValidatorState {
+	switch lifecycleLabel(v, head) {
+	case "pending":
+		if v.Eligibility == far {
+			return apiv1.ValidatorStatePendingInitialized
+		}
+		return apiv1.ValidatorStatePendingQueued
+	case "active-ongoing":
+		return apiv1.ValidatorStateActiveOngoing
+	case "active-exiting":
+		return apiv1.ValidatorStateActiveExiting
+	case "active-slashed":
+		return apiv1.ValidatorStateActiveSlashed
+	case "exited":
+		return apiv1.ValidatorStateExitedUnslashed
+	case "exited-slashed":
+		return apiv1.ValidatorStateExitedSlashed
+	case "withdrawal-possible":
+		return apiv1.ValidatorStateWithdrawalPossible
+	}
+	return apiv1.ValidatorStateWithdrawalDone
+}
+
+func toAPI(mgr string, v *Val, head uint64) *apiv1.Validator {
 	a := accounts()[v.Acct]
 	return &apiv1.Validator{
 		Index:   phase0.ValidatorIndex(v.Index),
 		Balance: phase0.Gwei(v.EffBalance * 1_000_000_000),
+		Status:  statusAt(v, head),
 		Validator: &phase0.Validator{
-			PublicKey:                  a.PubKey,
+			PublicKey:                  a.ValidatorKey(mgr),
 			WithdrawalCredentials:      make([]byte, 32),
 			EffectiveBalance:           phase0.Gwei(v.EffBalance * 1_000_000_000),
 			Slashed:                    v.Slashed,
@@ -128,7 +158,7 @@ func toAPI(v *Val) *apiv1.Validator {
 
 // delivered is what a beacon node in the state of r answers when asked for the
 // given public keys (no keys = no filter, as in the beacon API).
-func delivered(r *Refresh, keys map[phase0.BLSPubKey]bool) []*Val {
+func delivered(mgr string, r *Refresh, keys map[phase0.BLSPubKey]bool) []*Val {
 	if r.Kind == "empty" || r.Kind == "error" {
 		return nil
 	}
@@ -144,7 +174,7 @@ func delivered(r *Refresh, keys map[phase0.BLSPubKey]bool) []*Val {
 		if omit[v.Acct] {
 			continue
 		}
-		if len(keys) > 0 && !keys[accounts()[v.Acct].PubKey] {
+		if len(keys) > 0 && !keys[accounts()[v.Acct].ValidatorKey(mgr)] {
 			continue
 		}
 		res = append(res, v)
@@ -165,8 +195,8 @@ func (p *valProvider) Validators(_ context.Context, opts *api.ValidatorsOpts) (*
 		keys[k] = true
 	}
 	data := map[phase0.ValidatorIndex]*apiv1.Validator{}
-	for _, v := range delivered(p.script, keys) {
-		data[phase0.ValidatorIndex(v.Index)] = toAPI(v)
+	for _, v := range delivered(p.mgr, p.script, keys) {
+		data[phase0.ValidatorIndex(v.Index)] = toAPI(p.mgr, v, p.script.HeadEpoch)
 	}
 	return &api.Response[map[phase0.ValidatorIndex]*apiv1.Validator]{Data: data, Metadata: map[string]any{}}, nil
 }
@@ -387,9 +417,7 @@ func (j *judge) violation(sig string, format string, args ...any) {
 	ev.Violation(j.t, sig, j.c, format, args...)
 }
 
-func buildManager(ctx context.Context, c *Case, w *world, vp *valProvider) (manager, error) {
-	clock := fakes.NewVClock(time.Unix(1600000000, 0), 12*time.Second, 32)
-	clock.SetSlot(c.CurrentEpoch*32, 0)
+func buildManager(ctx context.Context, c *Case, w *world, vp *valProvider, clock *fakes.VClock) (manager, error) {
 	vm, err := validatorsmanager.New(ctx,
 		validatorsmanager.WithLogLevel(zerolog.Disabled),
 		validatorsmanager.WithMonitor(nullmetrics.New()),
@@ -463,11 +491,13 @@ func runAndJudge(t ev.TB, c *Case, w *world) *stats {
 		adm[i] = admission(c.Specs, a)
 	}
 
-	vp := &valProvider{script: &c.Steps[0].Refresh}
+	vp := &valProvider{mgr: c.Manager, script: &c.Steps[0].Refresh}
+	clock := fakes.NewVClock(time.Unix(1600000000, 0), 12*time.Second, 32)
+	clock.SetSlot(c.Steps[0].Refresh.HeadEpoch*32, 0)
 	if w.signer != nil {
 		w.signer.setScript(&c.Steps[0].Refresh)
 	}
-	mgr, err := buildManager(ctx, c, w, vp)
+	mgr, err := buildManager(ctx, c, w, vp, clock)
 	if err != nil {
 		if strings.HasPrefix(err.Error(), "harness") {
 			t.Fatalf("%v", err)
@@ -493,14 +523,15 @@ func runAndJudge(t ev.TB, c *Case, w *world) *stats {
 			if w.signer != nil {
 				w.signer.setScript(&step.Refresh)
 			}
+			clock.SetSlot(step.Refresh.HeadEpoch*32, 0)
 			mgr.Refresh(ctx)
 		}
-		where := fmt.Sprintf("step %d (%s refresh)", si, step.Refresh.Kind)
+		where := fmt.Sprintf("step %d (%s refresh, head epoch %d)", si, step.Refresh.Kind, step.Refresh.HeadEpoch)
 
 		// --- which accounts are known?
 		knownObs := map[int]bool{}
 		for _, a := range univ {
-			acc, err := mgr.AccountByPublicKey(ctx, a.PubKey)
+			acc, err := mgr.AccountByPublicKey(ctx, a.ValidatorKey(c.Manager))
 			if err != nil {
 				continue
 			}
@@ -510,7 +541,7 @@ func runAndJudge(t ev.TB, c *Case, w *world) *stats {
 			}
 			var got phase0.BLSPubKey
 			copy(got[:], acc.PublicKey().Marshal())
-			if got != a.PubKey || acc.Name() != a.Name {
+			if got != a.PubKey || acc.Name() != a.Name || validatorKeyOf(acc) != a.ValidatorKey(c.Manager) {
 				j.violation("known-account-mismatch", "%s: AccountByPublicKey(%s) returned account %q with another key or name", where, a.Path(), acc.Name())
 				continue
 			}
@@ -561,10 +592,10 @@ func runAndJudge(t ev.TB, c *Case, w *world) *stats {
 		// --- validator records: what the node delivered for the known accounts.
 		requested := map[phase0.BLSPubKey]bool{}
 		for id := range knownObs {
-			requested[univ[id].PubKey] = true
+			requested[univ[id].ValidatorKey(c.Manager)] = true
 		}
 		changed := false
-		if d := delivered(&step.Refresh, requested); len(d) > 0 {
+		if d := delivered(c.Manager, &step.Refresh, requested); len(d) > 0 {
 			if c.Manager == "dirk" && len(knownObs) == 0 {
 				// The dirk manager knows no account: whether it asks the node at
 				// all (for everything) is its own business, and nothing can be
@@ -611,6 +642,15 @@ func runAndJudge(t ev.TB, c *Case, w *world) *stats {
 					st.boundary = true
 				}
 				st.label("state-at-query:" + lifecycleLabel(v, q.Epoch))
+				if statusAt(v, step.Refresh.HeadEpoch).IsPending() && v.Activation <= q.Epoch && changed {
+					st.label("pending-at-refresh-active-at-query")
+				}
+				if statusAt(v, step.Refresh.HeadEpoch).IsActive() && v.Exit <= q.Epoch && changed {
+					st.label("active-at-refresh-exited-at-query")
+				}
+				if c.Manager == "dirk" && univ[id].Distributed {
+					st.label("distributed-account-with-validator:" + lifecycleLabel(v, q.Epoch))
+				}
 				if activeAt(v, q.Epoch) {
 					wantVal[v.Index] = id
 				}
@@ -932,17 +972,21 @@ func evolve(t *rapid.T, v *Val) {
 	}
 }
 
-func genEpoch(t *rapid.T, vals []Val) uint64 {
-	var bounds []uint64
+func genEpoch(t *rapid.T, vals []Val, head uint64) uint64 {
+	var bounds, ahead []uint64
 	for i := range vals {
 		for _, b := range []uint64{vals[i].Activation, vals[i].Exit, vals[i].Withdrawable} {
 			if b != far {
 				bounds = append(bounds, b)
+				if b > head {
+					ahead = append(ahead, b)
+				}
 			}
 		}
 	}
-	k := rapid.IntRange(0, 9).Draw(t, "epochKind")
-	if len(bounds) > 0 && k <= 6 {
+	k := rapid.IntRange(0, 11).Draw(t, "epochKind")
+	switch {
+	case len(bounds) > 0 && k <= 4:
 		b := rapid.SampledFrom(bounds).Draw(t, "boundary")
 		switch rapid.IntRange(0, 3).Draw(t, "delta") {
 		case 0:
@@ -954,14 +998,40 @@ func genEpoch(t *rapid.T, vals []Val) uint64 {
 			return b + 1
 		}
 		return b
-	}
-	switch k {
-	case 7:
+	case len(ahead) > 0 && k <= 7:
+		// a status change that lies ahead of the head at refresh time
+		return rapid.SampledFrom(ahead).Draw(t, "boundaryAhead") + rapid.SampledFrom([]uint64{0, 0, 1, 3}).Draw(t, "after")
+	case k <= 8:
+		// the head epoch and the look-ahead of duty preparation
+		return head + rapid.SampledFrom([]uint64{0, 1, 1, 2}).Draw(t, "lookAhead")
+	case k == 9:
 		return 0
-	case 8:
+	case k == 10:
 		return rapid.SampledFrom([]uint64{1 << 40, math.MaxInt64 - 1, math.MaxInt64}).Draw(t, "hugeEpoch")
 	}
 	return rapid.Uint64Range(0, 700).Draw(t, "epoch")
+}
+
+// genHead places the head of the chain shortly before, at or after a status
+// change, or anywhere.
+func genHead(t *rapid.T, vals []Val) uint64 {
+	var bounds []uint64
+	for i := range vals {
+		for _, b := range []uint64{vals[i].Activation, vals[i].Exit, vals[i].Withdrawable} {
+			if b != far {
+				bounds = append(bounds, b)
+			}
+		}
+	}
+	if len(bounds) > 0 && rapid.IntRange(0, 3).Draw(t, "headNearBoundary") > 0 {
+		b := rapid.SampledFrom(bounds).Draw(t, "headBoundary")
+		back := rapid.SampledFrom([]uint64{0, 1, 1, 2, 3, 10}).Draw(t, "headBack")
+		if back > b {
+			return 0
+		}
+		return b - back
+	}
+	return rapid.Uint64Range(0, 300).Draw(t, "head")
 }
 
 func genCase(t *rapid.T, mgr string) Case {
@@ -1014,7 +1084,7 @@ func genCase(t *rapid.T, mgr string) Case {
 		seenAcct[id], seenIdx[idx] = true, true
 		vals = append(vals, genVal(t, id, idx))
 	}
-	c.CurrentEpoch = rapid.Uint64Range(0, 300).Draw(t, "currentEpoch")
+	head := uint64(0)
 	nSteps := rapid.IntRange(1, 4).Draw(t, "nSteps")
 	for si := 0; si < nSteps; si++ {
 		if si > 0 {
@@ -1024,7 +1094,12 @@ func genCase(t *rapid.T, mgr string) Case {
 				evolve(t, &vals[rapid.IntRange(0, len(vals)-1).Draw(t, "evolveWhich")])
 			}
 		}
-		r := Refresh{Vals: append([]Val(nil), vals...)}
+		if si == 0 {
+			head = genHead(t, vals)
+		} else {
+			head += rapid.SampledFrom([]uint64{0, 1, 1, 2, 5, 40}).Draw(t, "headAdvance")
+		}
+		r := Refresh{HeadEpoch: head, Vals: append([]Val(nil), vals...)}
 		if si == 0 {
 			r.Kind = rapid.SampledFrom([]string{"full", "full", "full", "full", "full", "full", "subset", "empty", "error"}).Draw(t, "kind0")
 		} else {
@@ -1041,12 +1116,9 @@ func genCase(t *rapid.T, mgr string) Case {
 			genSigner(t, &c, &r, si)
 		}
 		st := Step{Refresh: r}
-		if c.CurrentEpoch > 0 && rapid.IntRange(0, 5).Draw(t, "queryCurrent") == 0 {
-			st.Queries = append(st.Queries, Query{Epoch: c.CurrentEpoch})
-		}
 		nQ := rapid.IntRange(1, 4).Draw(t, "nQueries")
 		for qi := 0; qi < nQ; qi++ {
-			st.Queries = append(st.Queries, Query{Epoch: genEpoch(t, vals)})
+			st.Queries = append(st.Queries, Query{Epoch: genEpoch(t, vals, head)})
 		}
 		for qi := range st.Queries {
 			q := &st.Queries[qi]
